@@ -89,6 +89,7 @@ type chunkL struct {
 }
 
 type part struct {
+	lastWrite int // opSeq of the last acknowledged write
 	tags   string // canonical tag line
 	src    string // real journal id
 	dense  string // model journal id
@@ -114,6 +115,9 @@ type sim struct {
 	chunkDense map[uint64]int
 	nextChunk  int
 	nextSrc    int
+	opSeq      int            // counts writes / starts / pipe creations
+	startSeq   int            // opSeq at the last server start
+	pipeSince  map[string]int // opSeq at which a pipe was created
 	// treeDamaged: the image has zero-filled / cut tree files AND the snapshot that refers to them (finding F47's class):
 	// the blocks the snapshot's roots point to are free and get re-allocated by index (re)builds of other chunks
 	treeDamaged bool
@@ -169,7 +173,7 @@ func (s *sim) specFail(kind, what, impl, spec, model string, eq bool, finding st
 // fork: a copy of the simulation on a copy of the directory (the server is NOT started), with its own model driver
 func (s *sim) fork(dir string) *sim {
 	c := &sim{sec: s.sec, sect: s.sect, in: s.in, dir: dir, opts: s.opts, parts: map[string]*part{}, pipes: map[string]pipe.Pipe{},
-		deleted: map[string]bool{}, chunkDense: map[uint64]int{}, nextChunk: s.nextChunk, nextSrc: s.nextSrc, treeDamaged: s.treeDamaged}
+		deleted: map[string]bool{}, chunkDense: map[uint64]int{}, nextChunk: s.nextChunk, nextSrc: s.nextSrc, treeDamaged: s.treeDamaged, opSeq: s.opSeq}
 	for k, p := range s.parts {
 		q := *p
 		q.events = append([]ev{}, p.events...)
@@ -410,14 +414,66 @@ func (s *sim) sortedTags() []string {
 	return tl
 }
 
+// pipeBehind: some pipe has not yet consumed a source partition up to its end. The pipe service learns about a write
+// through an asynchronous notification, so "every known position equals the last notified position" (VerifC07CaughtUp)
+// can hold before the notification of the latest write was even processed; the end of the source journal is the
+// reference. Only partitions written since the pipe exists and since the last start are required (a pipe hears about a
+// source through write notifications only).
+func (s *sim) pipeBehind() bool {
+	for name, def := range s.pipes {
+		sel := strings.NewReplacer(" ", "", "\"", "").Replace(def.TagsCond)
+		pm, ok := s.srv.Pipes.VerifC07Positions(name)
+		if !ok {
+			continue
+		}
+		since := s.pipeSince[name]
+		if s.startSeq > since {
+			since = s.startSeq
+		}
+		for _, p := range s.parts {
+			if p.dest || p.lastWrite <= since || len(p.chunks) == 0 {
+				continue
+			}
+			match := false
+			for _, t := range strings.Split(p.tags, ",") {
+				if t == sel {
+					match = true
+				}
+			}
+			if !match {
+				continue
+			}
+			last := p.chunks[len(p.chunks)-1]
+			pos, ok := pm[p.src]
+			if !ok || uint64(pos.CId) != last.id || int(pos.Idx) != last.n {
+				return true
+			}
+		}
+	}
+	return false
+}
+
 func (s *sim) waitPipes() bool {
 	ok := false
 	for i := 0; i < 1500; i++ {
-		if s.srv.Pipes.VerifC07CaughtUp() {
+		if s.srv.Pipes.VerifC07CaughtUp() && !s.pipeBehind() {
 			ok = true
 			break
 		}
 		time.Sleep(4 * time.Millisecond)
+	}
+	if !ok {
+		res.Dist(s.sect, "pipes-not-caught-up-after-6s")
+	}
+	// what the workers wrote to the pipe partitions sits in chunk writer buffers until their timer fires: flush explicitly
+	s.discover()
+	for _, p := range s.parts {
+		if !p.dest {
+			continue
+		}
+		if j, err := s.srv.Journals.GetOrCreate(context.Background(), p.src); err == nil {
+			j.Sync()
+		}
 	}
 	s.srv.FlushWait()
 	return ok
@@ -516,6 +572,8 @@ func (s *sim) doWrite(o hop, rng *vh.Rng, flush bool) (p *part, evs []ev) {
 		}
 	}
 	p.lastTs, p.seq = lastTs, seq
+	s.opSeq++
+	p.lastWrite = s.opSeq
 	if flush {
 		s.flushAndSync(p, evs)
 	}
@@ -547,6 +605,11 @@ func (s *sim) doMkPipe(o hop) {
 		return
 	}
 	s.pipes[o.Name] = d.Pipe
+	s.opSeq++
+	if s.pipeSince == nil {
+		s.pipeSince = map[string]int{}
+	}
+	s.pipeSince[o.Name] = s.opSeq
 	delete(s.deleted, o.Name)
 	s.expect(fmt.Sprintf("mkpipe %s %s %s", vh.HxS(d.Name), vh.HxS(d.TagsCond), vh.HxS(d.FltCond)), true, "ok", "CreatePipe")
 }
@@ -721,6 +784,8 @@ func splitCls(ans string) (string, map[string]bool) {
 
 // start starts IMPL and MODEL and compares; crashKind != "" says how the disk was produced (for attribution)
 func (s *sim) start(crashKind string) bool {
+	s.opSeq++
+	s.startSeq = s.opSeq
 	impl := s.startImpl()
 	ans := s.model("start", true)
 	mod, cls := splitCls(ans)
